@@ -230,8 +230,28 @@ NONBATCH = {
 }
 
 
+_FINDINGS = []
+
+
+def _findings():
+    """The known-findings file, read ONCE per process (it is read-only at run time; the generator consults it for every case, and
+    a reader that meets the file while it is being rewritten would make the data generation depend on external state)."""
+    if not _FINDINGS:
+        import time
+
+        for attempt in range(6):
+            try:
+                _FINDINGS.append(load_findings())
+                break
+            except ValueError:
+                if attempt == 5:
+                    raise
+                time.sleep(0.3)
+    return _FINDINGS[0]
+
+
 def _open_entries():
-    return [e for e in load_findings() if e.get("property") == ID and e.get("status", "open") == "open"]
+    return [e for e in _findings() if e.get("property") == ID and e.get("status", "open") == "open"]
 
 
 def _open_triggers():
@@ -244,7 +264,7 @@ def _open_triggers():
 
 def _exclusions():
     ex = {"Zero", "Permutation", "TransposePermutation"}
-    for e in load_findings():
+    for e in _findings():
         if e.get("status", "open") == "open":
             ex.update(e.get("exclude_nodes", []))
             if e.get("property") == ID:
